@@ -1775,7 +1775,8 @@ STATE_EXTRA = {
     "C08": {"chameleon.zpt.template"},
     "C01": {"chameleon.zpt.template", "chameleon.utils"},
     # escape sets travel through the expression engines
-    "C02": {"chameleon.tales"},
+    # (... and bytes values are decoded by the wrapper render() installs)
+    "C02": {"chameleon.tales", "chameleon.zpt.template"},
     # the token of a deferred error carries position and file name
     "C19": {"chameleon.tokenize"},
 }
@@ -2006,12 +2007,67 @@ def typed_value_sites(repo, mods=None):
     return n, bad
 
 
+CODEC_ERROR_HANDLERS = {"strict", "ignore", "replace", "xmlcharrefreplace",
+                        "backslashreplace", "namereplace", "surrogateescape",
+                        "surrogatepass"}
+STATEMENT_NAMESPACES = {"TAL": "chameleon.tal", "METAL": "chameleon.metal",
+                        "I18N": "chameleon.i18n"}
+
+
+def constant_sites(repo, mods=None):
+    """two more places where a string constant has to be one of a known
+    few: the error handler of an encode / decode call; the statement name of
+    a (namespace, name) key  -> (sites, [(func, node, construct, text)])"""
+    n, bad = 0, []
+    wl = {}
+    for ns, mn in STATEMENT_NAMESPACES.items():
+        try:
+            wl[ns] = set(repo.const(mn, "WHITELIST"))
+        except Exception:
+            pass
+    wl["META"] = {"interpolation"}
+    for q, f in sorted(repo.funcs.items()):
+        if mods is not None and f.module.name not in mods:
+            continue
+        idents = {}
+        for c in ast.walk(f.node):
+            if isinstance(c, ast.Call) and isinstance(c.func, ast.Attribute) \
+                    and c.func.attr in ("encode", "decode"):
+                cls_call = src(c.func.value) in ("bytes", "str")
+                pos = 2 if cls_call else 1
+                h = c.args[pos] if len(c.args) > pos else next(
+                    (k.value for k in c.keywords if k.arg == "errors"), None)
+                if isinstance(h, ast.Constant) and isinstance(h.value, str):
+                    n += 1
+                    if h.value not in CODEC_ERROR_HANDLERS:
+                        bad.append((f, c, "codec-error-handler",
+                                    "%r is no error handler" % h.value))
+            if isinstance(c, ast.Tuple) and len(c.elts) == 2 and \
+                    isinstance(c.elts[0], ast.Name) and \
+                    c.elts[0].id in wl and \
+                    isinstance(c.elts[1], ast.Constant) and \
+                    isinstance(c.elts[1].value, str) and \
+                    isinstance(getattr(c, "ctx", ast.Load()), ast.Load):
+                n += 1
+                if c.elts[1].value not in wl[c.elts[0].id]:
+                    bad.append((f, c, "pair-key-known:%s" % src(c),
+                                "%s has no statement %r" % (
+                                    c.elts[0].id, c.elts[1].value)))
+    return n, bad
+
+
 def shape_rule(repo, rep, rule=None, mods=None):
     rule = rule or "R%s.P" % rep.prop[1:]
     (fn, fb), (inn, ib), (kn, kb) = shape_sites(repo, mods)
     tn, tb = typed_value_sites(repo, mods)
+    cn, cb = constant_sites(repo, mods)
+    tn += cn
     if fn + inn + kn + tn == 0:
         return 0
+    for f, c, construct, text in cb:
+        rep.bad(rule, f.qualname, "a string constant that names an error "
+                "handler or a statement is one that exists", construct,
+                where=where(f, c.lineno), detail=text)
     for f, c in tb:
         rep.bad(rule, f.qualname, "the value of a node is type-tested only "
                 "after the node is known to be of a class that has one "
@@ -2036,7 +2092,7 @@ def shape_rule(repo, rep, rule=None, mods=None):
         rep.bad(rule, f.qualname, "a table keyed by (namespace, name) pairs "
                 "is read by a pair", "pair-key:%s" % src(k)[:40],
                 where=where(f, n.lineno), detail=src(n)[:120])
-    if not (fb or ib or kb or tb):
+    if not (fb or ib or kb or tb or cb):
         rep.ok(rule, "%s modules" % rep.prop, "G-SHAPE: %d fragments with "
                "their placeholders supplied, %d iterations / membership "
                "tests over real sequences, %d pair-keyed accesses, %d "
